@@ -50,8 +50,13 @@ TraceNext ==
        [] Ev = "cell.load.pre"    -> ELoad(P) /\ Step
        [] Ev = "cell.read.pre"    -> ERead(P) /\ Step
        [] Ev = "probe.dispatch.post" -> tgt[P] = A[1] /\ A[2] = 1 /\ EDispatch(P) /\ Step
-       [] Ev = "emit.done.post"   -> IF epc[P] = "disp" THEN tgt[P] = Noop /\ EDispatch(P) /\ Step
-                                     ELSE Obs(epc[P] = "load")
+       \* the k-th emission of this thread returned: it went through the cell (k dispatches counted), whatever local
+       \* scopes the thread had before
+       [] Ev = "emit.done.post"   -> IF epc[P] = "disp" THEN tgt[P] = Noop /\ EDispatch(P) /\ (Len(A) = 0 \/ cnt'[P] = A[1]) /\ Step
+                                     ELSE Obs(epc[P] = "load" /\ (Len(A) = 0 \/ cnt[P] = A[1]))
+       \* a thread-local recorder scope on an emitter thread: its emissions reach the local recorder and never the cell
+       [] Ev \in {"scope.enter.pre", "scope.inner.pre", "scope.exit.pre"} -> Obs(epc[P] = "load" /\ cnt[P] = 0)
+       [] Ev = "local.dispatch.post" -> Obs(A[1] = P /\ epc[P] = "load" /\ cnt[P] = 0)
        [] Ev = "final"            -> Obs(/\ \A i \in Installers : ipc[i] \in {"cas", "done"}
                                          /\ \A e \in Emitters : epc[e] = "load")
        [] Ev = "free"             -> Obs(FreeOK(Rec[l]))
